@@ -52,6 +52,30 @@ def api_steps(beh, rng, nkeys=3):
     return steps
 
 
+def directio_cases(rng, n):
+    """EnableDirectIOWAL: with the synchronous WAL every Put / Delete is refused (documented: not supported) - a refused call must have
+    no effect now, after a clean restart and after a crash; with the asynchronous WAL the database works as usual."""
+    cases = []
+    for i in range(n):
+        u = dbgen.Uniq("d")
+        nk = 3
+        obs = {"op": "getall", "k": nk}
+        normal = lambda: dbgen.open_step(5, 1 << 30, 1000)
+        dio = dict(dbgen.open_step(5, 1 << 30, 1000), directio=True)
+        dioasync = dict(dbgen.open_step(5, 1 << 30, 1000, mem=rng.choice([150, 1 << 30])), directio=True, **{"async": True})
+        muts = lambda m: [({"op": "put", "k": rng.randrange(nk), "v": u.next(), "pad": rng.choice([0, 40, 600])} if rng.random() < 0.7
+                           else {"op": "del", "k": rng.randrange(nk)}) for _ in range(m)]
+        steps = [normal()] + muts(4) + [obs, {"op": "close"}]
+        if i % 2 == 0:
+            steps += [dio] + muts(rng.randrange(1, 7)) + [obs, {"op": "crashcheck", "k": nk}, {"op": "close"}, normal(), obs] + muts(2) + [obs, {"op": "close"}]
+            steps += [dio, obs] + muts(3) + [{"op": "close"}, dio, obs, {"op": "close"}, normal(), obs, {"op": "close"}]
+        else:
+            steps += [dioasync] + muts(12) + [obs, {"op": "rotate"}, {"op": "barrier"}] + muts(5) + [obs, {"op": "close"}, normal(), obs, {"op": "close"}]
+            steps += [dioasync, obs] + muts(6) + [{"op": "close"}, dio, obs] + muts(2) + [obs, {"op": "close"}, normal(), obs, {"op": "close"}]
+        cases.append(steps)
+    return cases
+
+
 KEYSETS = {
     # the last key of every universe is the EMPTY key: a Delete/Get with a nil or empty key addresses it
     "plain": [b"key00", b"key01", b""],
@@ -92,6 +116,14 @@ def run(tier):
         rejected += sum(1 for b in sel if any(e["r"] == "rejected" for e in b))
         jobs.append(("%s-%d" % (ks, i), cases, KEYSETS[ks]))
     res = common.parallel(do, jobs)
+    # sessions with the direct-I/O WAL (on a block-device file system)
+    dcases = directio_cases(rng, 24 if thorough else 8)
+    dtrace = dbrun.run_db_batch(binary, "C17-directio", dcases, seed=SEED, timeout=600, disk=True)
+    dnok, dbad, dr = dbrun.judge_db(dtrace, o, "judge direct-I/O sessions")
+    jobs.append(("directio", dcases, []))
+    res.append((dtrace, dnok, dbad, dr))
+    devs = common.read_ndjson(dtrace)
+    o.extra["directio_refused_mutations"] = sum(1 for a, b in zip(devs, devs[1:]) if a["t"] == "inv" and a.get("mf") and b["t"] == "ret" and b.get("r") != "ok")
     ncases = 0
     for (name, cases, keys), (trace, nok, bad, r) in zip(jobs, res):
         ncases += len(cases)
